@@ -46,6 +46,12 @@ CHECKS = {
          "TLA+ monitor on TLC-validated implementation traces + TLC model checking of Spec B"),
  "C13": ("model_checking", "Retry monitor (attempts per visit) in Props; C13_bound/cond/silent/delay; Spec B retry path model-checked and replayed.", "6 C13",
          "TLA+ monitor on TLC-validated implementation traces + TLC model checking of Spec B"),
+ "C14": ("model_checking", "spec/Compose.tla: the composer's worklist algorithm as a TLA+ state machine, model-checked (safety + termination) against the "
+         "declarative RefGraph for every definition of the family; the real composer's graph compared by TLC with RefGraph under permutations "
+         "of the declaration order and across serialize/deserialize.", "6 C14", "TLC model checking of the composer algorithm + TLA+ relational check against the real composer"),
+ "C15": ("fault_enumeration", "spec/Inspect.tla enumerates every single-fault mutant of the host definitions with the report it must produce; the real "
+         "inspect() is run on each and C15_reported evaluated by TLC; soundness half: C15_internal_error on every call of sampled histories of accepted definitions.",
+         "6 C15", "TLC-enumerated fault injection + TLA+ clause on every recorded call"),
  "C17": ("model_checking", "Rerun clauses (accept, resuming, exact offers, no repeat, not stuck) on every call of histories that place a default or "
          "single-task rerun at every completed resting point; reruns whose re-executed actions succeed are related to the clean scenario's terminal "
          "observations (C17_converge, spec/Groups.tla).", "6 C17", "TLA+ monitor + relational check over rerun histories of the real conductor"),
